@@ -1,5 +1,5 @@
 (* C03 property theorems: statements + `exact lemma` only. *)
-From CJ Require Import Common.Base C04.Model C03.Model C03.Proofs C03.StatsModel C03.StatsProofs C03.ConnModel C03.ConnProofs.
+From CJ Require Import Common.Base C04.Model C03.Model C03.Proofs C03.StatsModel C03.StatsProofs C03.ConnModel C03.ConnProofs C03.FootProofs.
 Local Open Scope nat_scope.
 
 (* A connection whose bytes (those that arrive before the deadline D) present no valid tag to the
@@ -104,14 +104,14 @@ Print Assumptions C03_peer_close_identical.
    then the classification) for every accepted socket whose peer address denotes an IP address - a
    4-byte IPv4 address, an IPv4 address in its 16-byte ::ffff: form, a genuine IPv6 address; held in a
    TCP or UDP address object or parsed from another address's string - and every phantom (IPv4 or
-   IPv6): the headline statement holds unchanged.  The GeoIP database is a parameter; the hypothesis
-   geo_total says its lookups of IP addresses do not fail. *)
+   IPv6): the headline statement holds unchanged.  The GeoIP database is a parameter about which
+   nothing is assumed: its lookups may answer anything or fail. *)
 Theorem C03_every_ip_peer_no_reaction :
   forall (reveal : bytes -> list bytes) (mark : reginfo -> bytes -> bytes) (hs_ok : reginfo -> bytes -> bool)
          (geo_cc : bytes -> option bytes) (geo_asn : bytes -> option N)
          (tbl : list pfx) (R : registry) (tracked : nat) (ts : list tid) (drain_cap : nat) (D : N)
          (script : list (N * bytes)) (peer : raddr) (ip phantom : bytes),
-    geo_total geo_cc geo_asn -> remote_ip peer = Some ip -> is_ip ip ->
+    remote_ip peer = Some ip ->
     prefix_table_wfb tbl = true ->
     paced 0%N script ->
     ~ presents_tag reveal mark tbl R (stream_of (heard D script)) ->
@@ -126,7 +126,7 @@ Theorem C03_every_ip_peer_close_answered_at_once :
          (geo_cc : bytes -> option bytes) (geo_asn : bytes -> option N)
          (tbl : list pfx) (R : registry) (tracked : nat) (ts : list tid) (drain_cap : nat) (D : N)
          (script : list (N * bytes)) (tf : N) (e : rerr) (peer : raddr) (ip phantom : bytes),
-    geo_total geo_cc geo_asn -> remote_ip peer = Some ip -> is_ip ip ->
+    remote_ip peer = Some ip ->
     prefix_table_wfb tbl = true ->
     paced_until 0%N script tf -> (tf < D)%N ->
     ~ presents_tag reveal mark tbl R (stream_of script) ->
@@ -136,15 +136,16 @@ Theorem C03_every_ip_peer_close_answered_at_once :
 Proof. exact every_ip_peer_close_answered_at_once. Qed.
 Print Assumptions C03_every_ip_peer_close_answered_at_once.
 
-(* two connections that differ only in their addresses are handled identically - for every
-   WrapConnection behaviour, tagged or not *)
+(* two connections that differ only in their addresses - and in what the GeoIP database says about
+   them, lookup failures included - are handled identically, for every WrapConnection behaviour,
+   tagged or not *)
 Theorem C03_peer_address_irrelevant :
   forall (geo_cc : bytes -> option bytes) (geo_asn : bytes -> option N)
-         (wrap : tid -> bytes -> wres) drain_cap D tracked ts script fin peer1 peer2 ip1 ip2 phantom1 phantom2,
-    geo_total geo_cc geo_asn ->
-    remote_ip peer1 = Some ip1 -> is_ip ip1 -> remote_ip peer2 = Some ip2 -> is_ip ip2 ->
+         (wrap : tid -> bytes -> wres) drain_cap D tracked ts script fin peer1 peer2 ip1 ip2 phantom1 phantom2
+         (geo_cc' : bytes -> option bytes) (geo_asn' : bytes -> option N),
+    remote_ip peer1 = Some ip1 -> remote_ip peer2 = Some ip2 ->
     handle geo_cc geo_asn wrap drain_cap peer1 phantom1 D tracked ts script fin =
-    handle geo_cc geo_asn wrap drain_cap peer2 phantom2 D tracked ts script fin.
+    handle geo_cc' geo_asn' wrap drain_cap peer2 phantom2 D tracked ts script fin.
 Proof. exact peer_address_irrelevant. Qed.
 Print Assumptions C03_peer_address_irrelevant.
 
@@ -156,12 +157,12 @@ Proof. exact ip_addresses_accepted. Qed.
 Print Assumptions C03_ip_addresses_accepted.
 
 (* the boundary: the handler returns at once (its caller closes the connection) exactly when the
-   peer address is not an IP address (a pipe in a unit test) or a GeoIP lookup fails *)
+   peer address is not an IP address (a pipe in a unit test); no GeoIP answer or failure leads there *)
 Theorem C03_immediate_return_iff :
   forall (geo_cc : bytes -> option bytes) (geo_asn : bytes -> option N) (wrap : tid -> bytes -> wres)
          drain_cap peer phantom D tracked ts script fin,
     handle geo_cc geo_asn wrap drain_cap peer phantom D tracked ts script fin = [AReturn 0%N] <->
-    (remote_ip peer = None \/ exists ip, remote_ip peer = Some ip /\ geo_lookup geo_cc geo_asn ip = None).
+    remote_ip peer = None.
 Proof. exact immediate_return_iff. Qed.
 Print Assumptions C03_immediate_return_iff.
 
@@ -237,3 +238,35 @@ Theorem C03_stats_count_connections_in_flight :
     sum_state (fam v s) = in_flight v (gevs_tab [] es).
 Proof. exact state_counters_count_connections. Qed.
 Print Assumptions C03_stats_count_connections_in_flight.
+
+(* ---- the statistics footprint of an untagged connection, derived from the handler model of coq/C04:
+   if no transport ever gives a decisive answer on any prefix of the stream (which C03_no_tag_no_decisive_answer
+   establishes for streams without a valid tag), then whatever chunks its Reads return and however they
+   end (deadline, FIN, reset, another error), the connection is counted once (addCreated), every step
+   before the end is a non-resolving transition, and it is resolved exactly once by the transition of
+   that Read error - never as Found, never through the transports' error path (the sleep path); a
+   deadline resolves it as Timeout, a reset as Reset. *)
+Theorem C03_untagged_stats_footprint :
+  forall (wrap : tid -> bytes -> wres) (ts : list tid) (s : bytes),
+    quiet wrap ts s ->
+    forall (key : skey) (tracked : nat) (reads : list bytes) (rest : bytes) (kind : rkind),
+      concat reads ++ rest = s ->
+      let es := feed_hevs wrap (init tracked ts) reads in
+      exists mid tfin,
+        conn_ops key (tracked <? 1) (match ts with [] => true | _ => false end) (es ++ [HReadErr kind]) =
+        SAdd key :: map (fun t => STrans t key) (mid ++ [tfin]) /\
+        Forall (fun t => resolves t = false) mid /\
+        resolves tfin = true /\ tfin <> CheckToFound /\ tfin <> CheckToError /\
+        (kind = KTimeout -> dst tfin = inr OTimeout) /\ (kind = KReset -> dst tfin = inr OReset).
+Proof. exact untagged_footprint. Qed.
+Print Assumptions C03_untagged_stats_footprint.
+
+(* ---- the randomised deadline as a function of the random draw (ms := rand.Int63n(5000) + 5000):
+   always in [5 s, 10 s), one-to-one, and onto every millisecond of that range *)
+Theorem C03_deadline_draw :
+  forall r1 r2 d,
+    ((r1 < 5000)%N -> (5000 <= deadline_of_draw r1 < 10000)%N) /\
+    (deadline_of_draw r1 = deadline_of_draw r2 -> r1 = r2) /\
+    ((5000 <= d < 10000)%N -> exists r, (r < 5000)%N /\ deadline_of_draw r = d).
+Proof. exact deadline_draw. Qed.
+Print Assumptions C03_deadline_draw.
